@@ -264,14 +264,16 @@ Fixpoint add_all (store : list CA) (adds : list Add) : list CA :=
 
 Definition to_claim (d : Defn) (hash_label : string) : list CA := add_all [] (additions d hash_label).
 
-(* ---- read side.  v2: the claim lists created then gathered URIs; loading an assertion box looks its type up
-   with assertion_hashed_uri_from_label, which tests `url.contains(label)` on the created list first. *)
-Definition created_urls (c : list CA) : list string :=
-  map (fun x => assertion_url (ca_label x) (ca_inst x)) (filter ca_created c).
+(* ---- read side.  v2: the claim lists created then gathered URIs; loading an assertion box looks its type up with
+   assertion_hashed_uri_from_label, which (since fix 9afceaf9c) compares the label with its instance suffix to the last
+   path segment of each URI of the created list first.  Assertion labels contain no '/' (label grammar; the URI is
+   "self#jumbf=c2pa.assertions/" ++ label), so the last segment of an assertion URI is its label with instance. *)
+Definition created_segments (c : list CA) : list string :=
+  map (fun x => label_with_instance (ca_label x) (ca_inst x)) (filter ca_created c).
 
 Definition loaded_created (version : nat) (c : list CA) (x : CA) : bool :=
   if Nat.leb 2 version
-  then existsb (fun u => contains (label_with_instance (ca_label x) (ca_inst x)) u) (created_urls c)
+  then existsb (String.eqb (label_with_instance (ca_label x) (ca_inst x))) (created_segments c)
   else false.
 
 (* a reported assertion: label, instance, Json kind, created flag, payload position *)
